@@ -5,6 +5,7 @@ f24_0:
   ret
   call f25_0
   call f5_0
+  mov wvsv0(%rip),%rax
   ret
 .section .text.f24_1,"ax",@progbits
 .globl f24_1
@@ -12,6 +13,7 @@ f24_0:
 f24_1:
   ret
   lea d_f24_1(%rip),%rax
+  mov wvsv0@GOTPCREL(%rip),%rax
   ret
 .section .data.d_f24_1,"aw",@progbits
 .globl d_f24_1
